@@ -70,7 +70,7 @@ type cblPlan struct {
 const cblDocs = 3
 
 func init() {
-	for _, id := range []string{"C14B", "C02B", "C02R"} {
+	for _, id := range []string{"C14B", "C02B", "C02R", "C01R"} {
 		id := id
 		verifsim.Register(&verifsim.Property{
 			ID:       id,
@@ -81,7 +81,7 @@ func init() {
 				return pl.Cfg
 			},
 			Run: func(env *verifsim.Env, raw json.RawMessage) *verifsim.Violation {
-				return cblRun(env, raw, id[:3], id == "C02R")
+				return cblRun(env, raw, id[:3], id == "C02R", id == "C01R")
 			},
 			Shrink: cblShrink,
 		})
@@ -572,7 +572,7 @@ func (c *cblClient) disconnect() {
 	}
 }
 
-func cblRun(env *verifsim.Env, raw json.RawMessage, judgeProp string, restReads bool) *verifsim.Violation {
+func cblRun(env *verifsim.Env, raw json.RawMessage, judgeProp string, restReads, changesReads bool) *verifsim.Violation {
 	var p cblPlan
 	if err := json.Unmarshal(raw, &p); err != nil {
 		panic(err)
@@ -919,6 +919,15 @@ func cblRun(env *verifsim.Env, raw json.RawMessage, judgeProp string, restReads 
 					return v
 				}
 			}
+			if changesReads {
+				v, err := c01rAtRest(s, n, clients, fmt.Sprintf("at rest after phase %d", pi), pi*4)
+				if err != nil {
+					return budget(err, "REST changes requests")
+				}
+				if v != nil {
+					return v
+				}
+			}
 		}
 		// access steps of this phase: the user's admin channels, then what it gets through role r1
 		type accessStep struct {
@@ -1019,6 +1028,15 @@ func cblRun(env *verifsim.Env, raw json.RawMessage, judgeProp string, restReads 
 					v, err := c02rAtRest(s, n, clients, reg, "at rest "+where, pi*4+1+si)
 					if err != nil {
 						return budget(err, "REST reads")
+					}
+					if v != nil {
+						return v
+					}
+				}
+				if changesReads {
+					v, err := c01rAtRest(s, n, clients, "at rest "+where, pi*4+1+si)
+					if err != nil {
+						return budget(err, "REST changes requests")
 					}
 					if v != nil {
 						return v
